@@ -10,7 +10,7 @@ from pv.gen import files
 
 ID = 'C08'
 LEVEL = 'exploration'
-TECHNIQUE = 'exhaustive decision-table monitor: real Enforcer.enforce (scope gate + check) vs reference function, every row'
+TECHNIQUE = 'exhaustive decision-table monitor: real Enforcer.enforce (scope gate + check) vs reference function, every row; overlapping requests under a deterministic line-level thread scheduler (sys.monitoring)'
 RULE = ('rows = 16 scope-type declarations (none + every non-empty ordered subset of system/domain/project) x '
         '12 credential combinations (system absent / `system` / `system_scope` x domain_id x project_id) x enforce_scope '
         'x do_raise x check allows/denies/depends on a role x rule overridden in the policy file or not (under its own name, or - for policies registered as renamed - under the deprecated old name) x registered as RuleDefault / DocumentedRuleDefault x rule by name / check object x '
